@@ -8,6 +8,11 @@ let z_of_int (i : int) : coq_Z =
 let int_of_z (z : coq_Z) : int =
   match z with Z0 -> 0 | Zpos p -> Z.to_int (z_of_pos p) | Zneg p -> - (Z.to_int (z_of_pos p))
 
+(* decimal string of any size (int64 offsets exceed OCaml's 63-bit int) *)
+let z_of_string (s : string) : coq_Z =
+  let z = Z.of_string s in
+  if Z.sign z = 0 then Z0 else if Z.sign z > 0 then Zpos (pos_of_z z) else Zneg (pos_of_z (Z.neg z))
+
 (* rows: idhex:start:size,... *)
 let parse_rows (s : string) : ReadSeeker.index =
   Stdlib.List.map (fun r -> match Stdlib.String.split_on_char ':' r with
@@ -44,7 +49,7 @@ let err_class (e : ReadSeeker.err option) : string =
 (* ops: S:<offset>:<whence> | R:<len> *)
 let parse_ops (s : string) : ReadSeeker.op list =
   Stdlib.List.map (fun o -> match Stdlib.String.split_on_char ':' o with
-      | ["S"; off; wh] -> ReadSeeker.OSeek (z_of_int (int_of_string off), z_of_int (int_of_string wh))
+      | ["S"; off; wh] -> ReadSeeker.OSeek (z_of_string off, z_of_int (int_of_string wh))
       | ["R"; n] -> ReadSeeker.ORead (nat_of_int (int_of_string n))
       | _ -> failwith "op") (split_on ',' s)
 
